@@ -1096,6 +1096,60 @@ func dnameTargetResolvedSeparately(file string) bool {
 	return false
 }
 
+// delegationGuardUnconditional: in processDelegation a TOP-LEVEL `if !validReferral(...) { … return … }` exists whose
+// condition is that negated call and nothing else (no flag and-ed to it), before any top-level statement that calls
+// checkGlueRR / lookupV4Nss / SetUntil / resolveWithCachedNameservers.
+func delegationGuardUnconditional(file string) bool {
+	fset := token.NewFileSet()
+	f, err := parser.ParseFile(fset, file, nil, 0)
+	if err != nil {
+		return false
+	}
+	for _, d := range f.Decls {
+		fd, ok := d.(*ast.FuncDecl)
+		if !ok || fd.Name.Name != "processDelegation" || fd.Body == nil {
+			continue
+		}
+		guardAt, useAt := -1, -1
+		for i, st := range fd.Body.List {
+			if ifs, ok := st.(*ast.IfStmt); ok && guardAt < 0 && ifs.Init == nil {
+				if u, ok := ifs.Cond.(*ast.UnaryExpr); ok && u.Op == token.NOT {
+					if c, ok := u.X.(*ast.CallExpr); ok {
+						if id, ok := c.Fun.(*ast.Ident); ok && id.Name == "validReferral" {
+							returns := false
+							for _, b := range ifs.Body.List {
+								if _, ok := b.(*ast.ReturnStmt); ok {
+									returns = true
+								}
+							}
+							if returns {
+								guardAt = i
+							}
+						}
+					}
+				}
+			}
+			uses := false
+			ast.Inspect(st, func(n ast.Node) bool {
+				if c, ok := n.(*ast.CallExpr); ok {
+					if s, ok := c.Fun.(*ast.SelectorExpr); ok {
+						switch s.Sel.Name {
+						case "checkGlueRR", "lookupV4Nss", "SetUntil", "resolveWithCachedNameservers":
+							uses = true
+						}
+					}
+				}
+				return true
+			})
+			if uses && useAt < 0 {
+				useAt = i
+			}
+		}
+		return guardAt >= 0 && useAt > guardAt
+	}
+	return false
+}
+
 // addrBuilders lists, over resolver.go and utils.go, the functions that build a netip.Addr from raw bytes
 // or text. Record addresses must go through usableAddr (the proved filter); the only other legitimate
 // builder is checkPriming, which reads the operator-configured root hints' answers.
@@ -1300,7 +1354,7 @@ func facts() map[string]any {
 	}
 	return map[string]any{
 		// processDelegation: the referral rule is applied before glue is read, before NS addresses are looked up and before the delegation is stored
-		"shape_delegation_guard_first": pd[0] >= 0 && pd[1] > pd[0] && pd[2] > pd[0] && pd[3] > pd[0],
+		"shape_delegation_guard_first": pd[0] >= 0 && pd[1] > pd[0] && pd[2] > pd[0] && pd[3] > pd[0] && delegationGuardUnconditional(rfile),
 		// lookup (winner selection) applies the same rule to what extractDelegationInfo found
 		"shape_lookup_applies_rule": lk[0] >= 0 && lk[1] >= 0 && lk[1] < lk[0],
 		// answer() ends in clearAdditional
